@@ -924,6 +924,16 @@ pub fn replay(case: &Value, args: &Args) -> i32 {
                     rec.violation("replay", case.clone(), json!("no panic"), json!(m));
                 }
             }
+            // the sub-sweeps below are small and deterministic: the recorded case is among the ones they re-run
+            "table_shape" => {
+                sweep_table_shapes(&rec, false);
+            }
+            "leap_long" => {
+                sweep_leap_long_tables(&cyc, &rec, false);
+            }
+            "leap_extreme" => {
+                sweep_leap_extreme_positions(&cyc, &rec);
+            }
             _ => return 2,
         }
     }
